@@ -17,5 +17,7 @@ bin/upfcheck -prop "$PROP" -tier "$TIER" -repo "${UPF_REPO:-/repo}" -verif /veri
 rc=$?
 if [ "$TIER" = "thorough" ]; then
   python3 tools/variants.py "$PROP" --jobs 6 --merge "evidence/$PROP.json" | grep -v '^selftest ok'
+  # engine fixtures (positive and negative examples of the path / loop engines)
+  (cd checker && go test ./internal/... 2>&1 | grep -v '^ok\|no test files' | sed 's/^/ENGINE-SELFTEST: /')
 fi
 exit $rc
